@@ -105,7 +105,7 @@ def run(R):
     R.cov["records_validated"] = total
     R.cov["variants"] = variants
     R.sample({"text": list(texts[len(texts) // 2])})
-    R.sample(json.loads(open(files[0]).readline()))
+    R.sample_line(files[0], 0)
     R.assumptions += ["errno classes are not compared (the property does not state them)",
                       "on failure only the non-zero return, 'reported length <= capacity' and 'end pointer inside the text' are required",
                       "NUL is ignorable whenever an ignore string is given (strchr semantics), modelled as a named deviation"]
